@@ -22,6 +22,10 @@ T = {
          "Trusts go/ssa dominators and the rule table of growth methods (a new db.Transaction method that inserts rows must be added to the table; R17.1's site count guards against the table matching nothing).",
          "dominator-based check-before-insert rule with transaction identity, loop multiplicity and argument agreement on SSA + error-propagation rule", "DESIGN.md 4/C17"),
 
+ "C13": ("Static analysis of the clauses of byte-exactness that have a shape: (1) every format string that frames an IMAP literal ({n}CRLF bytes; 4 sites) is given len(E) and the same E (same receiver field, same reaching definition); (2) every slice expression in internal/response (the partial <o.n> slicing) has both bounds proved <= len of the sliced bytes from the dominating branch conditions, by linear-inequality entailment (Fourier-Motzkin, case split on phis) - a bound between len and cap would silently return the bytes that follow the section; (3) Header.Fields and Header.FieldsNot decide each keyed entry by one lookup of its mapKey in a strings.ToLower-built set with opposite polarity, and mapKey is only ever written with a strings.ToLower result. The equalities between sections (BODY[] = stored literal + ID header, HEADER+TEXT = BODY[], BODY[n.m] offsets, RFC822.SIZE) quantify over parsed offsets and are NOT decided; neither is low<=high of the partial slice (needs count >= 0).",
+         "Trusts go/ssa, the reaching-definition versioning of receiver fields (a call that is handed the receiver pointer invalidates it), rational relaxation of integer constraints (sound for refutation).",
+         "format-operand agreement rule + relational (linear-inequality) bounds analysis over dominating conditions + polarity/normalisation sibling rule on SSA", "DESIGN.md 4/C13"),
+
  "C16": ("Static analysis: (1) the number parser rejects, on every accumulation step, values above a constant <= 2^32-1, and every conversion to the 32-bit SeqID/UID types in internal/state has a bounded operand, so no message-set number can be truncated or wrapped onto another message; (2) every consumer of resolved sequence intervals checks both ends against the view before use (per iteration, dominating the use, or in a universal error-returning check loop); (3) no UID/SeqID value or difference is reinterpreted in a narrower or signed 32-bit type; (4) loops over a set's intervals are left only by exhaustion or return (result independent of the order in which the set was written). The set algebra itself (range normalisation, '*') is not decided.",
          "Trusts go/ssa; rule tables of view-bound check functions are derived structurally (SeqID parameter compared with len(list.msg)).",
          "dominator-based bound-check rules + conversion/type-width lint over SSA + loop-exit shape rule", "DESIGN.md 4/C16"),
